@@ -119,6 +119,11 @@ def inl(rng, d, lits=True, links=True, nb=False, ni=False, pl=True):
         target = rng.choice(WORDS + ["Cat:x", "a#frag", ":en:w"])
         if pl and rng.random() < 0.04:
             target = rng.choice(["a]" + MARKER + "]b", "File:a.png|thumb"])
+            if MARKER in target:
+                # a protected target only with a plain-word label: with a template / other protected brackets in
+                # the label the parser does not recognise the link at all ('[[a]<noinclude/>]b|{{t}} x]]' is
+                # text), which leaves a loose | -- in a table cell a new cell in the middle of bold (parser matter)
+                txt = [["t", rng.choice(WORDS)]] if rng.random() < 0.5 else None
         return ["link", target, txt, rng.choice(["", "", "s", "ing"])]
     if r < 0.66:
         if not links:
